@@ -860,6 +860,16 @@ TYPED = [
         ("core_evrun_nothing", "__iv_event_run_pending_events", ("cond", "if", 0), {}),
         ("core_evrun_last", "__iv_event_run_pending_events", ("cond", "if", 1), {}),
     ]),
+    ("LeafCoreRaw.v", "iv_event_raw_posix.c", [
+        ("raw_is_eventfd", "iv_event_raw_is_eventfd", ("fn",), {}),
+        ("raw_toread", "iv_event_raw_got_event", ("stmt", "toread", 0), {}),
+        ("raw_nothing", "iv_event_raw_got_event", ("cond", "if", 0), {}),
+        ("raw_zero", "iv_event_raw_got_event", ("cond", "if", 1), {}),
+        ("raw_post_pipe", "iv_event_raw_post", ("cond", "if", 0), {}),
+        ("raw_post_size_pipe", "iv_event_raw_post", ("arg", "write", 0, 2), {}),
+        ("raw_post_size_efd", "iv_event_raw_post", ("arg", "write", 1, 2), {}),
+        ("raw_unreg_pipe", "iv_event_raw_unregister", ("cond", "if", 0), {}),
+    ]),
     ("LeafCoreLists.v", "iv_task.c", [
         ("core_run_tasks_more", "iv_run_tasks", ("cond", "while", 0), {}),
         ("core_task_reg_misuse", "iv_task_register", ("cond", "if", 0), {}),
